@@ -42,6 +42,12 @@ def StrLen(maxoct=None):
     return TypeDesc("str", maxoct)
 
 
+def AsciiStrLen(maxoct=None):
+    """abstract string restricted to the strings whose character count equals their UTF-8 octet count (ASCII); the harness
+    should still state requires(len(s) == len(s.encode())) so that a native replay drops other strings"""
+    return TypeDesc("str", maxoct, True)
+
+
 def EnumOf(cls):
     return TypeDesc("enum", cls)
 
@@ -56,6 +62,11 @@ def OptionalOf(t):
 
 def ListOf(t, maxlen):
     return TypeDesc("list", t, maxlen)
+
+
+def TupleOf(*ts):
+    """fixed-arity tuple of independently quantified components (e.g. ListOf(TupleOf(Int, Int), 2))"""
+    return TypeDesc("tuple", *ts)
 
 
 def _reg(kind):
